@@ -81,6 +81,30 @@ def gen_cases(run, thorough):
             q, lg = rng.choice(QUALITIES), rng.choice(LGWINS)
             lw, cat, app, mg = (rng.randrange(2) for _ in range(4))
             cases.append(line(via, q, lg, lw, cat, app, 1 - cat, mg, rng.choice(HINTS), big))
+    # 5. call HISTORIES before (and between) the first data bytes: the header clause must hold whatever
+    #    the client does first - flush, empty process, metadata, take_output, tiny output buffers,
+    #    CompressorWriter::flush() right after construction
+    scripts = ["f", "p", "p,f", "f,f", "m5", "m0", "m1", "m64,f", "t", "t,f,t", "f,m3,f", "p,m1,p", "W", "d1,f", "d1,m2",
+               "d0,f", "d2,f,d1,f", "f,d3,m7", "m5,m5", "t,p,t,m2,t"]
+    h_lgwins = [-5, 10, 16, 17, 18, 22, 24, 26, 30, 40]
+    h_hints = [0, 127, (1 << 32) - 1]
+    for q in list(range(0, 12)) + [-1, 100]:
+        for lg in h_lgwins:
+            for lw in (0, 1):
+                for (cat, app, dic) in ((0, 0, 1), (0, 1, 1), (1, 1, 0), (1, 0, 1)):
+                    for mg in (0, 1):
+                        for sc in scripts:
+                            if not thorough and rng.randrange(3):      # quick: a third of the product, all of it in thorough
+                                continue
+                            cases.append(line("D", q, lg, lw, cat, app, dic, mg, rng.choice(h_hints), small_inputs[1]).replace("E ", "H ", 1)
+                                         + " %s %d" % (sc, rng.choice([0, 0, 1, 3, 17])))
+    for _ in range(6000 if thorough else 800):
+        q, lg = rng.choice(QUALITIES), rng.choice(h_lgwins)
+        lw, mg = rng.randrange(2), rng.randrange(2)
+        cat, app, dic = rng.choice(((0, 0, 1), (0, 1, 1), (1, 1, 0)))
+        sc = rng.choice([x for x in scripts if "d" not in x])
+        cases.append(line("D", q, lg, lw, cat, app, dic, mg, rng.choice(h_hints), big).replace("E ", "H ", 1)
+                     + " %s %d" % (sc, rng.choice([0, 0, 1, 17, 4096])))
     # 4. base-128 numbers (observed through the magic block: the function is private)
     nums = set([0, 1, (1 << 64) - 1, 1 << 63, (1 << 32) - 1, 1 << 32])
     for k in range(1, 10):
@@ -96,19 +120,35 @@ def gen_cases(run, thorough):
     return cases
 
 
+def known_input(t):
+    """input bytes the encoder knows when it writes the header (the size-hint estimate): everything for a
+    single FINISH call; for a call history, what was given before the first operation that makes the
+    encoder emit (flush, metadata, or the final FINISH)"""
+    total = input_len(t[10])
+    if t[0] != "H":
+        return total
+    given = 0
+    for it in t[11].split(","):
+        if it == "W" or it[0] in "fm":
+            return given
+        if it[0] == "d":
+            given = min(total, given + int(it[1:]))
+    return total
+
+
 def model_request(c):
-    """the request sent to the model: the input spec is replaced by the input length"""
+    """the request sent to the model: the input spec is replaced by the number of known input bytes"""
     t = c.split()
-    if t[0] == "E":
-        return " ".join(t[:10] + [str(input_len(t[10]))])
+    if t[0] in ("E", "H"):
+        return " ".join(["E"] + t[1:10] + [str(known_input(t))])
     return c
 
 
 def spec_request(c, impl):
     t = c.split()
-    if t[0] == "E":
+    if t[0] in ("E", "H"):
         a = impl.split()
-        return "S " + " ".join(t[:10] + [str(input_len(t[10])), a[1]])
+        return "S " + " ".join(["E"] + t[1:10] + [str(known_input(t)), a[1]])
     return "S " + c + " " + impl
 
 
@@ -190,7 +230,9 @@ def check(run):
         "large_window x catable x appendable x use_dictionary x magic_number x size_hint {0,1,127,128,2^14,2^21,2^32-1} on the empty and a "
         "short text input (parameters written into the public params fields), lgwin i32 extremes, the same through set_parameter with "
         "`as u32` casts (Rust level and C ABI), a 70 KB input whose second half repeats the first (full grid in the thorough tier, a "
-        "covering sample in quick), base-128 numbers at every 7-bit boundary +-1, powers of two and PRNG values; one stream per case "
+        "covering sample in quick), 20 call histories before/between the first data bytes (flush, empty process, EMIT_METADATA, take_output, "
+        "split data, CompressorWriter::flush() first) x output chunk sizes {64K,1,3,17} over quality x window x flags x magic (a third of the "
+        "product in quick, all in thorough), base-128 numbers at every 7-bit boundary +-1, powers of two and PRNG values; one stream per case "
         "through the real streaming encoder; distinct_nontrivial = distinct request lines in which something other than the default "
         "header is exercised (large window, magic block, quality <= 1 or clamped, lgwin clamped or 16/17, numbers >= 128)")
     impl = vlib.run_lines(impl_exe, cases, timeout=3000)
@@ -203,7 +245,10 @@ def check(run):
     for k, (c, a, m) in enumerate(zip(cases, impl, mod)):
         t = c.split()
         why = None
-        if t[0] == "E":
+        if t[0] in ("E", "H"):
+            if t[0] == "H":
+                hist.setdefault("histories", {})
+                hist["histories"][t[11]] = hist["histories"].get(t[11], 0) + 1
             hist["via"][t[1]] = hist["via"].get(t[1], 0) + 1
             hist["input"][t[10][0]] = hist["input"].get(t[10][0], 0) + 1
             if not a.startswith("OK "):
@@ -231,7 +276,7 @@ def check(run):
             if len(run.violations) < 5:
                 run.report("spec-violation", {"request": c}, {"impl": a, "model": m, "spec": why}, what=why)
             continue
-        agrees = header_agrees(a.split()[1], m) if t[0] == "E" else (a == m)
+        agrees = header_agrees(a.split()[1], m) if t[0] in ("E", "H") else (a == m)
         if not agrees:
             ncorr += 1
             if ncorr <= 5:
@@ -263,7 +308,7 @@ def replay(path):
     _, _, model = vlib.ocaml_build("C15", "c15_driver.ml")
     a = vlib.run_lines(impl_exe, [req])[0]
     m = vlib.run_lines(model, [model_request(req)])[0]
-    if req.startswith("E"):
+    if req.startswith(("E", "H")):
         if a.startswith("OK "):
             s = vlib.run_lines(model, [spec_request(req, a)])[0]
             if s == "OK":
